@@ -718,6 +718,21 @@ func minimise(sc *scratch, sp *spec, tier string, v *caseT) (*caseT, error) {
 		return nil, fmt.Errorf("shrink worker returned nothing")
 	}
 	if min.Class == "unreproducible" {
+		// The shrinker re-executes candidates inside ONE process. A failure that
+		// depends on state the code under test keeps from one execution to the
+		// next (a process-wide cache, say) shows on the first execution only, so
+		// minimisation is impossible — but the run itself may well be exactly
+		// reproducible in a fresh process, which is what a replay is. Try that,
+		// twice, with the unminimised case.
+		a, err1 := replayCase(sc, sp, tier, v)
+		b, err2 := replayCase(sc, sp, tier, v)
+		if err1 == nil && err2 == nil && a.Class == v.Class && b.Class == v.Class && a.EventHash == b.EventHash && a.Fingerprint == b.Fingerprint {
+			a.Tier = tier
+			a.Knobs = v.Knobs
+			a.OrigPlanLen, a.OrigSchedLen = len(v.Plan), len(v.Sched)
+			a.Msg = "(not minimised: the failure shows only on the first execution in a process, so every replay needs a fresh process — which `./check replay` is)\n" + a.Msg
+			return a, nil
+		}
 		return min, nil
 	}
 	rep, err := replayCase(sc, sp, tier, min)
